@@ -23,6 +23,8 @@ def warm_layouts():
     C.run_tlc("Discovery", "Discovery.cfg", workers=8, timeout=3600)
     C.run_tlc("Imports", "Imports.cfg", workers=12, timeout=3600)
     C.run_tlc("Positions", "Positions.cfg", workers=4, timeout=3600)
+    for g in ("use", "bind", "fix"):
+        C.run_tlc("Undeclared", "Undeclared_%s.cfg" % g, workers=4, timeout=3600)
     for g in ("deco", "params", "body", "doc"):
         C.run_tlc("Extract", "Extract_%s.cfg" % g, workers=4, timeout=3600)
     C.run_tlc("Plugins", "Plugins.cfg", workers=4, timeout=3600)
@@ -44,6 +46,7 @@ CHECKS = {
     "C14": diskchecks.check_c14,
     "C15": extractchecks.check_c15,
     "C16": depgraphs.check_c16,
+    "C17": lspchecks.check_c17,
     "C19": lspchecks.check_c19,
     "C20": clichecks.check_c20,
 }
